@@ -112,12 +112,12 @@ macro_rules! reg_split {
 }
 // @vp name=c05_reg_split_n2_p1 prop=C05 tier=quick t=480 fns=DecisionTreeRegressor::find_best_split,quick_argsort_mut size=n=2,p=1 dom=x-lattice(0..3),y-lattice(-2..2),weights0..2,msl1..2,f32 stubs=traps,no_format
 reg_split!(c05_reg_split_n2_p1, 2, 1, 2, 6);
-// @vp name=c05_reg_split_n3_p1 prop=C05 tier=thorough mem=40 t=3600 fns=DecisionTreeRegressor::find_best_split,quick_argsort_mut size=n=3,p=1 dom=x-lattice(0..3),y-lattice(-2..2),weights0..2,msl1..2,f32 stubs=traps,no_format
+// @vp name=c05_reg_split_n3_p1 prop=C05 tier=thorough mem=40 t=1500 fns=DecisionTreeRegressor::find_best_split,quick_argsort_mut size=n=3,p=1 dom=x-lattice(0..3),y-lattice(-2..2),weights0..2,msl1..2,f32 stubs=traps,no_format
 reg_split!(c05_reg_split_n3_p1, 3, 1, 2, 7);
 // @vp name=c05_reg_split_n3_p1_w01 prop=C05 tier=quick t=480 fns=DecisionTreeRegressor::find_best_split,quick_argsort_mut size=n=3,p=1 dom=x-lattice(0..3),y-lattice(-2..2),weights0..1,msl1..2,f32 stubs=traps,no_format
 reg_split!(c05_reg_split_n3_p1_w01, 3, 1, 1, 7);
 // every row present with weight 1..2 (total weight up to 6): the leaf-size guard is exercised with candidates on both sides
-// @vp name=c05_reg_split_n3_p1_w12 prop=C05 tier=quick t=480 mem=30 fns=DecisionTreeRegressor::find_best_split,quick_argsort_mut size=n=3,p=1 dom=x-lattice(0..3),y-lattice(-2..2),weights1..2,msl1..2,f32 stubs=traps,no_format
+// @vp name=c05_reg_split_n3_p1_w12 prop=C05 tier=quick t=480 fns=DecisionTreeRegressor::find_best_split,quick_argsort_mut size=n=3,p=1 dom=x-lattice(0..3),y-lattice(-2..2),weights1..2,msl1..2,f32 stubs=traps,no_format
 reg_split!(c05_reg_split_n3_p1_w12, 3, 1, 1, 2, 7);
 // @vp name=c05_reg_split_n2_p2 prop=C05 tier=quick t=480 fns=DecisionTreeRegressor::find_best_split,quick_argsort_mut size=n=2,p=2 dom=x-lattice(0..3),y-lattice(-2..2),weights0..2,msl1..2,f32 stubs=traps,no_format
 reg_split!(c05_reg_split_n2_p2, 2, 2, 2, 6);
